@@ -1,6 +1,8 @@
 (** Pins/C14.v — the statements of the C14 theorems, pinned: weakening a statement in Properties/C14.v makes this file fail. *)
-From PdfV Require Import Base.Prelude Gen.Generated Lex.Lexer Codec.Model
+From PdfV Require Import Base.Prelude Gen.Generated Lex.Lexer
   Safety.Front Safety.Numeric Safety.Walks Properties.C14.
+From PdfV Require Codec.Model Codec.Dispatch Codec.Pairing Codec.ChainProofs ObjStm.Model XRef.Model
+  Font.Model Font.WidthProofs PageTree.Model Crypt.Model Import.Model Import.Theorems Syn.Prim.
 
 Check C14_guarded_walk : forall nodes g, (forall n, In n nodes -> incl (g n) nodes) -> forall stop key, In key nodes ->
   exists ok, guarded (S (length nodes)) stop g [] key = Ok ([], ok).
@@ -15,37 +17,36 @@ Check C14_ps_run : forall rnd ops inputs n_out, never_crashes (ps_run rnd ops in
 Check C14_ps_body : forall s, never_crashes (ps_body s).
 Check C14_fn2_load : forall domain_len range_len c0_len c1_len, never_crashes (fn2_load domain_len range_len c0_len c1_len).
 Check C14_differences : forall items, exists l, differences items = Ok l /\ (length l <= length items)%nat.
-Check C14_objstm_slice : forall first offsets data_len index,
-  objstm_fits first offsets = true -> lenN offsets < U64 -> never_crashes (objstm_slice first offsets data_len index).
-Check C14_objstm_header : forall n data, never_crashes (objstm_header (S (length data)) n (mkLx 0 data) []).
-Check C14_objstm_refuted : objstm_slice 8 [18446744073709551615] 6 0 = Panic 502 /\ objstm_fits 8 [18446744073709551615] = false.
-Check C14_xref_section : forall tolerant num w0 w1 w2 data_len,
-  w0 + w1 + w2 < U64 -> num * (w0 + w1 + w2) < U64 -> never_crashes (xref_section_entries tolerant num w0 w1 w2 data_len).
-Check C14_xref_section_i32 : forall tolerant num w0 w1 w2 data_len,
-  num <= 2147483647 -> w0 <= 2147483647 -> w1 <= 2147483647 -> w2 <= 2147483647 ->
-  never_crashes (xref_section_entries tolerant num w0 w1 w2 data_len).
-Check C14_xref_section_cost : forall tolerant num w0 w1 w2 data_len n,
-  xref_section_entries tolerant num w0 w1 w2 data_len = Ok n -> 0 < w0 + w1 + w2 -> n * (w0 + w1 + w2) <= data_len.
-Check C14_xref_section_refuted : xref_section_entries false 4294967295 2147483647 2147483647 2147483647 0 = Panic 602 /\
-  xref_section_entries false 4294967295 0 0 0 0 = Ok 4294967295.
-Check C14_widths : forall items sets top, widths_no_empty_array items = true ->
-  (forall z, In (WInt z) items -> (z <= 2147483647)%Z) -> (forall n, In (WArr n) items -> n < U32) ->
-  never_crashes (widths_go items sets top).
-Check C14_widths_refuted : widths_site [WInt 0; WArr 0] = Panic 702 /\
-  widths_site [WInt 0; WInt (-1); WInt 5] = Ok (18446744073709551616, 18446744073709551616) /\
-  widths_site [WInt 0; WInt 2147483647; WInt 5] = Ok (2147483648, 2147483648).
-Check C14_crypt_sites : forall v r bits cf s, crypt_key_size v r bits cf = Panic s -> s = 801 \/ s = 802.
-Check C14_crypt_refuted : crypt_key_size 2 3 0 None = Panic 802 /\ crypt_key_size 4 4 128 (Some (0, Some 536870912)) = Panic 801 /\
-  crypt_key_size 4 4 128 (Some (1, Some 0)) = Panic 802 /\ crypt_key_size 2 3 128 None = Ok 16.
-Check C14_page_counts : forall depth kids page_nr, counts_fit depth kids = true -> never_crashes (page_limited depth kids page_nr).
-Check C14_page_counts_refuted : page_site [PTree 2147483647 [PLeaf]; PTree 2147483647 [PLeaf]; PTree 2147483647 [PLeaf]] 4294967295 = Panic 901 /\
-  counts_fit 16 [PTree 2147483647 [PLeaf]; PTree 2147483647 [PLeaf]; PTree 2147483647 [PLeaf]] = false /\
-  page_site [PLeaf; PTree 2 [PLeaf; PLeaf]; PLeaf] 2 = Ok tt.
-Check C14_predictor : forall predictor colors columns decoded,
-  as_usize columns * as_usize colors + 1 < U64 -> never_crashes (unpredict predictor colors columns decoded).
-Check C14_predictor_sites : forall predictor colors columns decoded s,
-  unpredict predictor colors columns decoded = Panic s -> s = 104 \/ s = 105.
-Check C14_predictor_refuted : unpredict 12 (-1) (-1) [0; 1; 2] = Panic 104 /\ unpredict 12 1 (-1) [0; 1; 2] = Panic 105.
+Check C14_objstm_slice : forall first offsets datalen index site,
+  ObjStm.Model.object_slice first offsets datalen index <> Panic site.
+Check C14_objstm_header : forall n s, never_crashes (ObjStm.Model.header_offsets n s).
+Check C14_objstm_member : forall R, total_resolver R -> forall flags first nobj data index,
+  never_crashes (ObjStm.Model.resolve_member R flags first nobj data index).
+Check C14_xref_section : forall first num width data allow,
+  no_panic (XRef.Model.parse_xref_section_from_stream first num width data allow).
+Check C14_xref_section_cost : forall first num w0 w1 w2 data allow s rest,
+  XRef.Model.parse_xref_section_from_stream first num [w0; w1; w2] data allow = Ok (s, rest) ->
+  0 < w0 + w1 + w2 /\ lenN data = lenN rest + lenN (XRef.Model.entries s) * (w0 + w1 + w2) /\
+  lenN (XRef.Model.entries s) <= lenN data.
+Check C14_widths : forall dw items, Font.WidthProofs.clean (Font.Model.cid_widths dw items).
+Check C14_type0 : forall (A : Type) (ds : list A) f, (forall d, Font.WidthProofs.clean (f d)) ->
+  Font.WidthProofs.clean (Font.Model.type0_widths ds f).
+Check C14_crypt_key_length : forall md5, (forall x, exists h, md5 x = Ok h /\ length h = 16%nat) ->
+  forall sha256 sha384 sha512 aes_enc aes_dec prep fuel d id pass, Crypt.Model.d_r d <= 4 ->
+  never_crashes (Crypt.Model.from_password md5 sha256 sha384 sha512 aes_enc aes_dec prep fuel d id pass).
+Check C14_page_counts : forall st root i, i <= PageTree.Model.u32_max ->
+  no_panic (PageTree.Model.load_root st (S (length st)) root) /\
+  forall rt, no_panic (PageTree.Model.get_page st (S (length st)) rt i).
+Check C14_decoders : forall izlib iraw ld, Codec.ChainProofs.oracles_total izlib iraw ld ->
+  (forall f d, never_crashes (Codec.Dispatch.decode izlib iraw ld f d)) /\
+  (forall fs d, never_crashes (Codec.Dispatch.decode_chain izlib iraw ld fs d)) /\
+  (forall f pv d, never_crashes (Codec.Pairing.stream_data izlib iraw ld f pv d)).
+Check C14_predictor : forall p d, no_panic (Codec.Model.unpredict p d).
+Check C14_import_total : forall fetch g roots fuel,
+  (forall i gn st ln, Import.Theorems.ok_or_err (fetch i gn st ln)) ->
+  (Import.Model.fuel_for g (map (fun r => PdfV.Syn.Prim.PRef (fst r) (snd r)) roots) <= fuel)%nat ->
+  Import.Theorems.ok_or_err (Import.Model.import_roots fetch g fuel roots Import.Model.st0).
+Check C14_guard_per_thread : cache_chain_per_thread = true.
 Check C14_fax_capacity : forall columns rows, columns < U32 -> rows < U32 ->
   (columns * rows <= ISIZE_MAX -> fax_capacity columns rows = Ok (columns * rows)) /\
   (ISIZE_MAX < columns * rows -> fax_capacity columns rows = Panic 1002).
@@ -53,4 +54,4 @@ Check C14_fax_refuted : fax_capacity 4294967295 4294967295 = Panic 1002 /\ fax_c
   forall buf_len columns, 0 < columns -> fax_check buf_len columns = Ok (buf_len mod columns).
 Check C14_full_statement_refuted : ~ C14_full_statement.
 Check C14_guards_in_source : ps_roll_len_guard = 1 /\ ps_roll_mod_guard = 1 /\ ps_index_guard = 1 /\ ps_parse_get = 1 /\ diff_wrapping = 1.
-Check C14_budgets_in_source : (0 <? sf_page_depth) = true /\ (0 <? tree_depth) = true /\ (0 <? cs_depth) = true.
+Check C14_budgets_in_source : (0 <? tree_depth) = true /\ (0 <? cs_depth) = true.
